@@ -11,7 +11,26 @@ import numpy as np
 import filutil
 import vlib
 
-NCH = {1: 8, 2: 8, 4: 4, 8: 4, 32: 4}
+NCH = {1: 16, 2: 8, 4: 4, 8: 4, 32: 4}
+TOP = {1: 1, 2: 3, 4: 15, 8: 255}
+DM_K = 4.148808e3          # dispersion constant (Lorimer & Kramer), MHz^2 pc^-1 cm^3 s
+DOWN_BASE = ((1, 2), (2, 1), (2, 2), (3, 1))
+
+
+def indep_delays(fch1, foff, nch, dm, tsamp):
+    """dispersion delays in samples relative to channel 0, from the dispersion law in float64 (not the library's helper).
+    Returns (delays, margin): margin = distance of the nearest unrounded delay from a rounding boundary."""
+    f = fch1 + foff * np.arange(nch, dtype=np.float64)
+    t = DM_K * dm * (f ** -2.0 - float(fch1) ** -2.0) / tsamp
+    return np.round(t).astype(int), float(np.abs((t - np.floor(t)) - 0.5).min())
+
+
+def delays_for(fil, fch1, foff, nch, dm, tsamp):
+    """independent delays (not shifted); the library's own only if a delay sits within 1e-3 of a rounding boundary (float32 vs float64)"""
+    dl, margin = indep_delays(fch1, foff, nch, dm, tsamp)
+    if margin < 1e-3:
+        dl = fil.header.get_dmdelays(dm).astype(int)
+    return dl
 
 
 def reread(path):
@@ -28,14 +47,90 @@ def reread(path):
         return "exc", f"{type(e).__name__}: {str(e)[:100]}", 0
 
 
+def make_checkers(R, base, tag, out):
+    """check(name, want, nbits_out, ...) and attempt(name, f, ...) for one (file, range, gulp); failure keys <name>-<tag>-<what>"""
+
+    def check(name, want, nbits_out, params=None, tol=0, path=out, values=True):
+        """want: (nsamps_out, nchans_out) array; tol: scalar or array of the same shape; values=False: depth / size / sample count only"""
+        c = dict(base, **(params or {}))
+        h, got, rawlen = reread(path)
+        if h == "exc":
+            R.fail(f"{name}-{tag}-unreadable", "output file cannot be re-read", dict(c, exc=got)); return
+        if h.nbits != nbits_out:
+            R.fail(f"{name}-{tag}-depth", "declared depth of the output differs from the transform's", dict(c, nbits_out=h.nbits)); return
+        exp_bytes = want.shape[0] * want.shape[1] * nbits_out // 8
+        if rawlen != exp_bytes or h.nsamples != want.shape[0] or h.nchans != want.shape[1]:
+            R.fail(f"{name}-{tag}-size", "data section length / inferred sample count differs from what the transform defines",
+                   dict(c, bytes=rawlen, expected_bytes=exp_bytes, nsamples=h.nsamples, want_nsamples=int(want.shape[0]), nchans=h.nchans))
+            return
+        if not values:
+            return
+        if got.shape != want.shape or (np.abs(got.astype(np.float64) - want.astype(np.float64)) > tol).any():
+            R.fail(f"{name}-{tag}-values", "data section differs from the whole-array transform", dict(c, got=got.tolist()[:6], want=want.tolist()[:6]))
+
+    def attempt(name, f, params=None):
+        try:
+            return f()
+        except Exception as e:  # noqa: BLE001
+            R.fail(f"{name}-{tag}-exception", "transform raised", dict(base, **(params or {}), exc=f"{type(e).__name__}: {str(e)[:100]}"))
+            return None
+
+    return check, attempt
+
+
+def subband_want(sel, delays, nsub):
+    """(per-sub-band sums of delay-shifted channels, the same sums of absolute values) of the selected samples"""
+    nch = sel.shape[1]
+    no = sel.shape[0] - int(delays.max())
+    w = np.zeros((no, nsub)); wabs = np.zeros((no, nsub))
+    per = nch // nsub
+    for c in range(nch):
+        col = sel[delays[c]:delays[c] + no, c].astype(np.float64)
+        w[:, c // per] += col
+        wabs[:, c // per] += np.abs(col)
+    return w, wabs
+
+
+def down_want(sel, nbits, tf, ff, fl):
+    """(block means reduced to the output depth, tolerance) of the selected samples"""
+    nsamps, nch = sel.shape
+    no = nsamps // tf
+    if nbits == 32:
+        s64 = sel[:no * tf].astype(np.float64).reshape(no, tf, nch // ff, ff)
+        w = s64.sum(axis=(1, 3)) / (tf * ff)
+        # integer-valued floats: absolute 1e-4; arbitrary floats: float32 rounding of a mean accumulated in double
+        tol = 1e-6 * np.maximum(1.0, np.abs(s64).sum(axis=(1, 3)) / (tf * ff)) if fl else 1e-4
+        return w, tol
+    grp = sel[:no * tf].reshape(no, tf, nch // ff, ff).sum(axis=(1, 3))
+    return grp // (tf * ff), 0       # block means reduced to the output depth (truncation of a non-negative mean)
+
+
+def zerodm_want(x, start, nsamps):
+    """x[t,c] - (sum over channels of x[t,.]) * w[c] + bp[c] on the selected samples; bp = bandpass (channel means) of the WHOLE file,
+    w = bp / sum(bp) -- the library takes the bandpass of the file, not of the selection"""
+    x64 = x.astype(np.float64)
+    sel = x64[start:start + nsamps]
+    bp = x64.mean(0)
+    wts = bp / bp.sum() if bp.sum() != 0 else bp
+    return sel - sel.sum(1, keepdims=True) * wts + bp
+
+
 def run(R: vlib.Run):
     from sigpyproc.readers import FilReader
-    R.rule = ("synthetic files at depths 1,2,4,8,32 (batch_size 1 or 200 for the multi-file extractions); transforms invert_freq, apply_channel_mask, extract_samps, extract_chans, extract_bands, "
-              "downsample (tfactor,ffactor), subband (dm,nsub), remove_zerodm; every gulp in a spread incl. 1, non-dividing, > range; sub-ranges; "
+    R.rule = ("synthetic files at depths 1,2,4,8,32 (batch_size 1 or 200 for the multi-file extractions) plus a 32-bit file of arbitrary float values (negative, fractional, 1e6); "
+              "transforms invert_freq, apply_channel_mask, extract_samps, extract_chans (unsorted lists of 1, 2, all channels; default list), "
+              "extract_bands (aligned / unaligned chanstart, chanpersub given or defaulted), downsample (tfactor,ffactor incl. ffactor=nchans, 3x2, tfactor>gulp), "
+              "subband (dm,nsub incl. nsub=nchans; delays from the dispersion law in float64), remove_zerodm (incl. pedestal data at every depth, sub-ranges); "
+              "every gulp in a spread incl. 1, non-dividing, > range; sub-ranges; start/nsamps left to their defaults; "
               "distinct = (transform, depth, params, start, nsamps, gulp); non-trivial = more than one block")
     R.trusted += ["Coq 8.16.1 kernel + vm_compute", "tools/py2coq (kernels, plan arithmetic, call sites regenerated each run)",
                   "hand glue of Model/C07_pipe.v tied by correspondence", "FileWriter depth conversion is C04; here the written bytes are re-read"]
-    R.assume += ["integer-valued samples (float32 arithmetic exact)"]
+    R.assume += ["integer-valued samples (float32 arithmetic exact)",
+                 "float32 files: finite sample values with |x| <= 1e6 (the oracle's arbitrary-valued file; decimation and sub-band sums to float32 rounding)",
+                 "nsamps >= 1 and, for sub-banding, maximum delay < nsamps (read_plan refuses the others with ValueError)",
+                 "extract_bands: chanpersub >= 2 (the library refuses chanpersub = 1, i.e. single-channel bands, with ValueError)",
+                 "extract_chans: lists of distinct in-range channels (a list with SOME channels out of range passes the library's range check: negative numbers wrap, too large ones raise IndexError after files were created)",
+                 "zero-DM removal of a sub-range subtracts/adds the bandpass of the whole file (the library's definition); 'within one quantisation level' allows 1e-3 of float32 rounding on top"]
     R.prove("Props/C07.v")
     R.need(["Model/C07_pipe.vo"])
     rng = R.rng
@@ -43,49 +138,43 @@ def run(R: vlib.Run):
     d = os.path.join(vlib.SCRATCH, f"c07_{os.getpid()}")
     os.makedirs(d, exist_ok=True)
     corr = []
+    FCH1, TSAMP = 400.0, 0.001
     try:
-        N = 7 if R.tier == "quick" else 10
-        for nbits in (1, 2, 4, 8, 32):
+        N0 = 7 if R.tier == "quick" else 10
+        # fl: the 32-bit file holds arbitrary float32 values instead of integers 0..255 (oracle only; the models are over the integers)
+        for nbits, fl in ((1, False), (2, False), (4, False), (8, False), (32, False), (32, True)):
             nch = NCH[nbits]
+            N = max(N0, 12) if nch >= 8 else N0        # max delay at dm=0.12 is 4-5 samples for 8/16 channels: gulp >= 2*maxdelay must stay < N
+            foff = -20.0 if nch <= 8 else -10.0
             hi = 1 << min(nbits, 8)
-            x = nprng.integers(0, hi, (N, nch))
-            paths = filutil.write_fil_set(os.path.join(d, f"in{nbits}"), x, nbits, [N // 2] if nbits in (8, 2) else [], fch1=400.0, foff=-20.0, tsamp=0.001)
+            if fl:
+                x = nprng.normal(0.0, 300.0, (N, nch)).astype(np.float32)
+                x[0, 0] = -1.0e6; x[1, 1] = 70000.25; x[2, nch - 1] = 0.125; x[3, 0] = -0.5
+            else:
+                x = nprng.integers(0, hi, (N, nch))
+            vtag = "f" if fl else ""
+            paths = filutil.write_fil_set(os.path.join(d, f"in{nbits}{vtag}"), x, nbits, [N // 2] if nbits in (8, 2) else [], fch1=FCH1, foff=foff, tsamp=TSAMP)
             fil = FilReader(paths)
             out = os.path.join(d, "out.fil")
             ranges = [(0, N), (0, N - 2), (1, N - 1), (2, 3), (N - 1, 1)] if R.tier == "quick" else [(s, n) for s in range(N) for n in range(1, N - s + 1)]
+            if fl:      # the arbitrary-valued file is about casts of the values, not about the plan: fewer ranges and gulps
+                ranges = [(0, N), (1, N - 1), (2, 3)] if R.tier == "quick" else [(s, n) for s in range(0, N, 2) for n in range(1, N - s + 1, 2)]
             for start, nsamps in ranges:
                 sel = x[start:start + nsamps]
                 gulps = sorted(set([1, 2, 3, max(1, nsamps - 1), nsamps, nsamps + 3]))
+                if fl:
+                    gulps = sorted(set([2, max(1, nsamps - 1), nsamps + 3]))
                 for gulp in gulps:
                     base = {"nbits": nbits, "nchans": nch, "N": N, "start": start, "nsamps": nsamps, "gulp": gulp}
+                    if fl:
+                        base["float_values"] = True
                     multi = gulp < nsamps
                     tag = "full" if (start, nsamps) == (0, N) else "sub"
-
-                    def check(name, want, nbits_out, params=None, tol=0, path=out):
-                        """want: (nsamps_out, nchans_out) array"""
-                        c = dict(base, **(params or {}))
-                        h, got, rawlen = reread(path)
-                        if h == "exc":
-                            R.fail(f"{name}-{tag}-unreadable", "output file cannot be re-read", dict(c, exc=got)); return
-                        if h.nbits != nbits_out:
-                            R.fail(f"{name}-{tag}-depth", "declared depth of the output differs from the transform's", dict(c, nbits_out=h.nbits)); return
-                        exp_bytes = want.shape[0] * want.shape[1] * nbits_out // 8
-                        if rawlen != exp_bytes or h.nsamples != want.shape[0] or h.nchans != want.shape[1]:
-                            R.fail(f"{name}-{tag}-size", "data section length / inferred sample count differs from what the transform defines",
-                                   dict(c, bytes=rawlen, expected_bytes=exp_bytes, nsamples=h.nsamples, want_nsamples=int(want.shape[0]), nchans=h.nchans))
-                            return
-                        if got.shape != want.shape or (np.abs(got.astype(np.float64) - want.astype(np.float64)) > tol).any():
-                            R.fail(f"{name}-{tag}-values", "data section differs from the whole-array transform", dict(c, got=got.tolist()[:6], want=want.tolist()[:6]))
-
-                    def attempt(name, f, params=None):
-                        try:
-                            return f()
-                        except Exception as e:  # noqa: BLE001
-                            R.fail(f"{name}-{tag}-exception", "transform raised", dict(base, **(params or {}), exc=f"{type(e).__name__}: {str(e)[:100]}"))
-                            return None
+                    check, attempt = make_checkers(R, base, tag, out)
+                    kb = (nbits, fl)
 
                     # --- invert_freq
-                    R.case(("invert", nbits, start, nsamps, gulp), nontrivial=multi, regime="invert_freq")
+                    R.case(("invert", kb, start, nsamps, gulp), nontrivial=multi, regime="invert_freq")
                     if attempt("invert_freq", lambda: fil.invert_freq(outfile_name=out, gulp=gulp, start=start, nsamps=nsamps, quiet=True)):
                         check("invert_freq", sel[:, ::-1], nbits)
                         if nbits == 8:
@@ -95,75 +184,95 @@ def run(R: vlib.Run):
                     mv = int(nprng.integers(0, hi))
                     if nbits == 32 and gulp % 2 == 1:      # float files take any float32 fill: fractional, above 255, negative
                         mv = float(rng.choice([2.5, 1000.0, -3.0, 0.125, 65536.5]))
-                    R.case(("mask", nbits, start, nsamps, gulp, tuple(mask.tolist()), mv), nontrivial=multi, regime="mask")
+                    R.case(("mask", kb, start, nsamps, gulp, tuple(mask.tolist()), mv), nontrivial=multi, regime="mask")
                     if attempt("apply_channel_mask", lambda: fil.apply_channel_mask(mask, mv, outfile_name=out, gulp=gulp, start=start, nsamps=nsamps, quiet=True)):
                         w = sel.astype(np.float64); w[:, mask] = mv
                         check("apply_channel_mask", w, nbits, {"mask": mask.tolist(), "mask_value": mv})
                     # --- extract_samps
-                    R.case(("samps", nbits, start, nsamps, gulp), nontrivial=multi, regime="extract_samps")
+                    R.case(("samps", kb, start, nsamps, gulp), nontrivial=multi, regime="extract_samps")
                     if attempt("extract_samps", lambda: fil.extract_samps(start, nsamps, outfile_name=out, gulp=gulp, quiet=True)):
                         check("extract_samps", sel, nbits)
-                    # --- extract_chans
-                    chans = sorted(rng.sample(range(nch), 2))
-                    R.case(("chans", nbits, start, nsamps, gulp, tuple(chans)), nontrivial=multi, regime="extract_chans")
-                    names = attempt("extract_chans", lambda: fil.extract_chans(chans, outfile_base=os.path.join(d, "ch"), batch_size=rng.choice([1, 200]), gulp=gulp, start=start, nsamps=nsamps, quiet=True))
-                    if names:
+                    # --- extract_chans: 1, 2 or all channels in arbitrary (unsorted) order; file i of the returned list is channel chans[i]
+                    chans = rng.sample(range(nch), rng.choice([1, 2, 2, nch]))
+                    R.case(("chans", kb, start, nsamps, gulp, tuple(chans)), nontrivial=multi, regime="extract_chans")
+                    names = attempt("extract_chans", lambda: fil.extract_chans(chans, outfile_base=os.path.join(d, "ch"), batch_size=rng.choice([1, 200]), gulp=gulp, start=start, nsamps=nsamps, quiet=True),
+                                    {"chans": chans})
+                    if names is not None:
+                        if len(names) != len(chans):
+                            R.fail(f"extract_chans-{tag}-count", "number of channel files differs from the number of channels asked for", dict(base, chans=chans, files=len(names)))
                         for cnum, nm in zip(chans, names):
-                            check("extract_chans", sel[:, [cnum]], 32, {"chan": cnum}, path=nm)
+                            check("extract_chans", sel[:, [cnum]], 32, {"chan": cnum, "chans": chans}, path=nm)
+                    if gulp == 2:          # the default channel list: every channel, in order
+                        R.case(("chans-all", kb, start, nsamps, gulp), nontrivial=multi, regime="extract_chans")
+                        names = attempt("extract_chans", lambda: fil.extract_chans(outfile_base=os.path.join(d, "ca"), batch_size=rng.choice([3, 200]), gulp=gulp, start=start, nsamps=nsamps, quiet=True),
+                                        {"chans": None})
+                        if names is not None:
+                            if len(names) != nch:
+                                R.fail(f"extract_chans-{tag}-count", "number of channel files differs from the number of channels", dict(base, chans=None, files=len(names)))
+                            for cnum, nm in zip(range(nch), names):
+                                check("extract_chans", sel[:, [cnum]], 32, {"chan": cnum, "chans": None}, path=nm)
+
                     # --- extract_bands
-                    cps = 2
-                    cstart = rng.choice([0, 2]) if nch >= 4 else 0
+                    def bands_case(cstart, nb, cps, omit_cps=False):
+                        nbands = 1 if omit_cps else nb // cps
+                        width = nb if omit_cps else cps
+                        if (width * nbits) % 8:
+                            return
+                        prm = {"chanstart": cstart, "nchans_sel": nb, "chanpersub": None if omit_cps else cps}
+                        R.case(("bands", kb, start, nsamps, gulp, cstart, nb, prm["chanpersub"]), nontrivial=multi, regime="extract_bands")
+                        kw = {} if omit_cps else {"chanpersub": cps}
+                        names = attempt("extract_bands", lambda: fil.extract_bands(cstart, nb, outfile_base=os.path.join(d, "bd"), batch_size=rng.choice([1, 200]), gulp=gulp, start=start, nsamps=nsamps, quiet=True, **kw), prm)
+                        if names is not None:
+                            if len(names) != nbands:
+                                R.fail(f"extract_bands-{tag}-count", "number of band files differs from nchans/chanpersub", dict(base, **prm, files=len(names)))
+                            for ib, nm in enumerate(names[:nbands]):
+                                c0 = cstart + ib * width
+                                check("extract_bands", sel[:, c0:c0 + width], nbits, dict(prm, band=ib), path=nm)
+
+                    cps = max(2, 8 // nbits)           # narrowest band whose output sample is a whole number of bytes (chanpersub = 1 is refused by the library)
+                    cstart = rng.choice([0, cps]) if nch >= 2 * cps else 0
                     nb = rng.choice([cps, nch - cstart]) if (nch - cstart) % cps == 0 else cps
                     if (nb * nbits) % 8 == 0 and (cps * nbits) % 8 == 0:
-                        R.case(("bands", nbits, start, nsamps, gulp, cstart, nb), nontrivial=multi, regime="extract_bands")
-                        names = attempt("extract_bands", lambda: fil.extract_bands(cstart, nb, chanpersub=cps, outfile_base=os.path.join(d, "bd"), batch_size=rng.choice([1, 200]), gulp=gulp, start=start, nsamps=nsamps, quiet=True),
-                                        {"chanstart": cstart, "nchans_sel": nb, "chanpersub": cps})
-                        if names is not None:
-                            if len(names) != nb // cps:
-                                R.fail(f"extract_bands-{tag}-count", "number of band files differs from nchans/chanpersub", dict(base, chanstart=cstart, nchans_sel=nb, chanpersub=cps, files=len(names)))
-                            for ib, nm in enumerate(names[: nb // cps]):
-                                c0 = cstart + ib * cps
-                                check("extract_bands", sel[:, c0:c0 + cps], nbits, {"band": ib, "chanstart": cstart}, path=nm)
+                        bands_case(cstart, nb, cps)
+                    extra = rng.choice(["unaligned", "defaulted", "three" if nbits >= 8 else "unaligned"])
+                    if extra == "unaligned":           # chanstart not a multiple of chanpersub
+                        bands_case(rng.randrange(1, cps), cps, cps)
+                    elif extra == "three":             # (chanstart, nchans, chanpersub) = (1, 3, 3)
+                        bands_case(1, 3, 3)
+                    else:                              # chanpersub left to its default (= nchans): one band
+                        bands_case(rng.choice([0, 1]), rng.choice([2, 3]) if nbits >= 8 else cps, None, omit_cps=True)
                     # --- downsample
-                    for tf, ff in ((1, 2), (2, 1), (2, 2), (3, 1)):
+                    pairs = list(DOWN_BASE) + rng.sample([(1, nch), (4, 4), (3, 2), (5, 1), (2, nch // 2)], 1)
+                    for tf, ff in dict.fromkeys(pairs):
                         if nch % ff or ((nch // ff) * nbits) % 8:
                             continue
-                        R.case(("down", nbits, start, nsamps, gulp, tf, ff), nontrivial=multi, regime="downsample")
+                        R.case(("down", kb, start, nsamps, gulp, tf, ff), nontrivial=multi, regime="downsample")
                         if attempt("downsample", lambda: fil.downsample(tfactor=tf, ffactor=ff, outfile_name=out, gulp=gulp, start=start, nsamps=nsamps, quiet=True), {"tfactor": tf, "ffactor": ff}):
-                            no = nsamps // tf
-                            grp = sel[:no * tf].reshape(no, tf, nch // ff, ff).sum(axis=(1, 3))
-                            if nbits == 32:
-                                w = grp / (tf * ff)
-                            else:
-                                w = grp // (tf * ff)      # block means reduced to the output depth (truncation of a non-negative mean)
-                            check("downsample", w, nbits, {"tfactor": tf, "ffactor": ff}, tol=1e-4 if nbits == 32 else 0)
-                            if nbits == 8:
+                            w, tol = down_want(sel, nbits, tf, ff, fl)
+                            check("downsample", w, nbits, {"tfactor": tf, "ffactor": ff}, tol=tol)
+                            if nbits == 8 and (tf, ff) in DOWN_BASE:
                                 h2, got2, _ = reread(out)
                                 if h2 != "exc":
                                     corr.append(("down", x, gulp, start, nsamps, [tf, ff], got2.astype(np.int64).ravel().tolist()))
                     # --- subband
                     for dm in (0.0, 0.12):
-                        delays = fil.header.get_dmdelays(dm).astype(int)
+                        delays = delays_for(fil, FCH1, foff, nch, dm, TSAMP)
                         md = int(delays.max())
                         if md >= nsamps:
                             continue
-                        for nsub in (1, 2):
+                        for nsub in ((1, 2, nch) if gulp % 2 else (1, 2)):
                             if nch % nsub:
                                 continue
-                            R.case(("subband", nbits, start, nsamps, gulp, md, nsub), nontrivial=multi or md > 0, regime="subband")
+                            R.case(("subband", kb, start, nsamps, gulp, md, nsub), nontrivial=multi or md > 0, regime="subband")
                             if attempt("subband", lambda: fil.subband(dm, nsub, outfile_name=out, gulp=gulp, start=start, nsamps=nsamps, quiet=True), {"dm": dm, "nsub": nsub}):
-                                no = nsamps - md
-                                w = np.zeros((no, nsub))
-                                per = nch // nsub
-                                for c in range(nch):
-                                    w[:, c // per] += sel[delays[c]:delays[c] + no, c]
-                                check("subband", w, 32, {"dm": dm, "nsub": nsub, "delays": delays.tolist()})
-                                if nbits == 8:
+                                w, wabs = subband_want(sel, delays, nsub)
+                                check("subband", w, 32, {"dm": dm, "nsub": nsub, "delays": delays.tolist()}, tol=1e-6 * wabs if fl else 0)
+                                if nbits == 8 and nsub in (1, 2):
                                     h2, got2, _ = reread(out)
                                     if h2 != "exc":
                                         corr.append(("subband", x, gulp, start, nsamps, [md, nsub] + delays.tolist(), got2.astype(np.int64).ravel().tolist()))
                     # --- zero-DM removal (full range only: the bandpass it adds back is that of the whole file)
-                    if nbits in (8, 32) and (start, nsamps) == (0, N):
+                    if nbits in (8, 32) and not fl and (start, nsamps) == (0, N):
                         R.case(("zerodm", nbits, gulp), nontrivial=multi, regime="remove_zerodm")
                         if attempt("remove_zerodm", lambda: fil.remove_zerodm(outfile_name=out, gulp=gulp, start=start, nsamps=nsamps, quiet=True)):
                             bp = sel.mean(0)
@@ -171,9 +280,11 @@ def run(R: vlib.Run):
                             w = sel - sel.sum(1, keepdims=True) * wts + bp
                             if nbits == 32 or (w.min() >= 0 and w.max() <= 255):
                                 check("remove_zerodm", w, nbits, tol=1.0 if nbits == 8 else 1e-3)
+                            else:
+                                check("remove_zerodm", w, nbits, values=False)
                     # --- zero-DM data flow against the Gallina pipeline: the real method on a float32 file, any sub-range, with the bandpass
                     #     replaced by integer weights summing to 1 (so chanwts = bpass exactly and every float32 operation is exact)
-                    if nbits == 32:
+                    if nbits == 32 and not fl:
                         bpw = nprng.integers(-3, 4, nch); bpw[-1] = 1 - int(bpw[:-1].sum())
                         class _BP:  # noqa: E306
                             data = bpw.astype(np.float32)
@@ -181,12 +292,75 @@ def run(R: vlib.Run):
                         try:
                             R.case(("zerodm-flow", start, nsamps, gulp), nontrivial=multi, regime="remove_zerodm")
                             if attempt("remove_zerodm", lambda: fil.remove_zerodm(outfile_name=out, gulp=gulp, start=start, nsamps=nsamps, quiet=True)):
+                                check("remove_zerodm", sel, nbits, values=False)
                                 h3, got3, _ = reread(out)
                                 if h3 != "exc":
                                     corr.append(("zerodm", x, gulp, start, nsamps, bpw.tolist() + bpw.tolist(), np.rint(got3).astype(np.int64).ravel().tolist()))
                         finally:
                             del fil.bandpass
+            # ---- start / nsamps left to their defaults (nsamps=None: to the end of the data; start omitted: from the first sample)
+            for s in (0, 2):
+                kw = {} if s == 0 else {"start": s}
+                sel = x[s:]
+                gulp = 3
+                base = {"nbits": nbits, "nchans": nch, "N": N, "start": s if s else "default", "nsamps": "default", "gulp": gulp}
+                if fl:
+                    base["float_values"] = True
+                tag = "full" if s == 0 else "sub"
+                check, attempt = make_checkers(R, base, tag, out)
+                R.case(("defaults", (nbits, fl), s), regime="default_range")
+                if attempt("invert_freq", lambda: fil.invert_freq(outfile_name=out, gulp=gulp, quiet=True, **kw)):
+                    check("invert_freq", sel[:, ::-1], nbits)
+                mask = nprng.integers(0, 2, nch).astype(bool)
+                if attempt("apply_channel_mask", lambda: fil.apply_channel_mask(mask, 1, outfile_name=out, gulp=gulp, quiet=True, **kw)):
+                    w = sel.astype(np.float64); w[:, mask] = 1
+                    check("apply_channel_mask", w, nbits, {"mask": mask.tolist(), "mask_value": 1})
+                chans = rng.sample(range(nch), 2)
+                names = attempt("extract_chans", lambda: fil.extract_chans(chans, outfile_base=os.path.join(d, "ch"), gulp=gulp, quiet=True, **kw), {"chans": chans})
+                for cnum, nm in zip(chans, names or []):
+                    check("extract_chans", sel[:, [cnum]], 32, {"chan": cnum, "chans": chans}, path=nm)
+                cps = max(2, 8 // nbits)
+                names = attempt("extract_bands", lambda: fil.extract_bands(0, 2 * cps, chanpersub=cps, outfile_base=os.path.join(d, "bd"), gulp=gulp, quiet=True, **kw), {"chanstart": 0, "nchans_sel": 2 * cps, "chanpersub": cps})
+                for ib, nm in enumerate(names or []):
+                    check("extract_bands", sel[:, ib * cps:(ib + 1) * cps], nbits, {"band": ib, "chanpersub": cps}, path=nm)
+                if attempt("downsample", lambda: fil.downsample(tfactor=2, outfile_name=out, gulp=gulp, quiet=True, **kw), {"tfactor": 2, "ffactor": 1}):
+                    w, tol = down_want(sel, nbits, 2, 1, fl)
+                    check("downsample", w, nbits, {"tfactor": 2, "ffactor": 1}, tol=tol)
+                delays = delays_for(fil, FCH1, foff, nch, 0.12, TSAMP)
+                if attempt("subband", lambda: fil.subband(0.12, 2, outfile_name=out, gulp=gulp, quiet=True, **kw), {"dm": 0.12, "nsub": 2}):
+                    w, wabs = subband_want(sel, delays, 2)
+                    check("subband", w, 32, {"dm": 0.12, "nsub": 2, "delays": delays.tolist()}, tol=1e-6 * wabs if fl else 0)
+                if attempt("remove_zerodm", lambda: fil.remove_zerodm(outfile_name=out, gulp=gulp, quiet=True, **kw)):
+                    check("remove_zerodm", sel, nbits, values=False)
+        # ---- zero-DM removal on pedestal data: every value of the result stays inside the representable range, so the value clause applies
+        #      at every depth (at 1 bit "within one level" is no constraint: depth / size / sample count only) and on every sub-range
+        for nbits in (1, 2, 4, 8, 32):
+            nch = NCH[nbits]
+            N = N0
+            if nbits == 32:
+                x = (100.0 + 40.0 * nprng.random((N, nch))).astype(np.float32)       # fractional
+            else:
+                lo, span = {1: (0, 2), 2: (1, 2), 4: (6, 4), 8: (100, 40)}[nbits]
+                x = lo + nprng.integers(0, span, (N, nch))
+            paths = filutil.write_fil_set(os.path.join(d, f"zd{nbits}"), x, nbits, [N // 2] if nbits in (8, 2) else [], fch1=FCH1, foff=-20.0, tsamp=TSAMP)
+            fil = FilReader(paths)
+            out = os.path.join(d, "out_zd.fil")
+            ranges = [(0, N), (0, N - 2), (1, N - 1), (2, 3), (N - 1, 1)] if R.tier == "quick" else [(s, n) for s in range(N) for n in range(1, N - s + 1, 2)]
+            for start, nsamps in ranges:
+                for gulp in sorted(set([1, 2, 3, max(1, nsamps - 1), nsamps, nsamps + 3])):
+                    base = {"nbits": nbits, "nchans": nch, "N": N, "start": start, "nsamps": nsamps, "gulp": gulp, "pedestal": True, "x": x.tolist()}
+                    tag = "full" if (start, nsamps) == (0, N) else "sub"
+                    check, attempt = make_checkers(R, base, tag, out)
+                    R.case(("zerodm-ped", nbits, start, nsamps, gulp), nontrivial=gulp < nsamps, regime="remove_zerodm_pedestal")
+                    if attempt("remove_zerodm", lambda: fil.remove_zerodm(outfile_name=out, gulp=gulp, start=start, nsamps=nsamps, quiet=True)):
+                        w = zerodm_want(x, start, nsamps)
+                        if nbits == 32:
+                            check("remove_zerodm", w, nbits, tol=1e-3)
+                        else:
+                            inrange = w.min() >= 0 and w.max() <= TOP[nbits]
+                            check("remove_zerodm", w, nbits, tol=1.0 + 1e-3, values=bool(inrange))
         # ---- sub-banding on an ascending band (negative delays are referred to the earliest channel) -----------
+        N = N0
         for nbits in (8, 32):
             nch = NCH[nbits]
             x = nprng.integers(0, 1 << min(nbits, 8), (N, nch))
@@ -194,7 +368,7 @@ def run(R: vlib.Run):
             fil = FilReader(paths)
             out = os.path.join(d, "out_asc.fil")
             for dm in (0.12, -0.12):
-                dl = fil.header.get_dmdelays(dm).astype(int)
+                dl = delays_for(fil, 320.0, 20.0, nch, dm, 0.001)
                 delays = dl - min(0, int(dl.min()))
                 md = int(delays.max())
                 for start, nsamps in ((0, N), (1, N - 1)):
@@ -212,6 +386,9 @@ def run(R: vlib.Run):
                             w = np.zeros((no, nsub)); per = nch // nsub
                             for c in range(nch):
                                 w[:, c // per] += sel[delays[c]:delays[c] + no, c]
+                            # declared depth / byte length / sample count (keys subband-ascending-depth, -size, -unreadable)
+                            make_checkers(R, {"nbits": nbits, "dm": dm, "gulp": gulp, "start": start, "nsamps": nsamps, "nsub": nsub, "delays": dl.tolist()},
+                                          "ascending", out)[0]("subband", w, 32, values=False)
                             h, got, rawlen = reread(out)
                             if h == "exc" or got.shape != w.shape or not np.array_equal(got.astype(np.float64), w):
                                 R.fail("subband-ascending-values", "sub-band sums wrong when the raw delays are negative",
@@ -259,6 +436,13 @@ def scale(R: vlib.Run):
             paths = filutil.write_fil_set(os.path.join(d, f"in{nbits}"), x, nbits, splits, fch1=400.0, foff=-200.0 / nch, tsamp=0.001)
             fil = FilReader(paths)
             out = os.path.join(d, "out.fil")
+            # pedestal copy for zero-DM removal (results stay inside 0..255, so the value clause applies at 8 bits)
+            zfil = zx = None
+            zpaths = []
+            if nbits in (8, 32):
+                zx = (20 + nprng.integers(0, 44, (N, nch))).astype(np.uint8)
+                zpaths = filutil.write_fil_set(os.path.join(d, f"zd{nbits}"), zx, nbits, splits, fch1=400.0, foff=-200.0 / nch, tsamp=0.001)
+                zfil = FilReader(zpaths)
             for start, nsamps in ((0, N), (777, N - 3000)):
                 sel = x[start:start + nsamps]
                 for gulp in (16384, 65536, 5000):
@@ -314,8 +498,26 @@ def scale(R: vlib.Run):
                                 for c in range(nch):
                                     w[:, c // per] += sel[delays[c]:delays[c] + no, c]
                                 check("subband", w, 32)
-            del fil
-            for p in paths:
+                        # channel extraction at scale: strided columns of a large block written as 32-bit time series, unsorted list
+                        chans = rng.sample(range(nch), 3)
+                        names = []
+                        if attempt("extract_chans", lambda: names.extend(fil.extract_chans(chans, outfile_base=os.path.join(d, "ch"), gulp=gulp, start=start, nsamps=nsamps, quiet=True))):
+                            if len(names) != len(chans):
+                                R.fail("scale-extract_chans", "number of channel files at scale differs from the number of channels asked for", dict(base, chans=chans, files=len(names)))
+                            for cnum, nm in zip(chans, names):
+                                check("extract_chans", sel[:, [cnum]].astype(np.float64), 32, path=nm)
+                        # zero-DM removal at scale (the output buffer is reused from block to block): pedestal data, bandpass of the whole file
+                        if zfil is not None:
+                            if attempt("remove_zerodm", lambda: zfil.remove_zerodm(outfile_name=out, gulp=gulp, start=start, nsamps=nsamps, quiet=True)):
+                                w = zerodm_want(zx, start, nsamps)
+                                if nbits == 32:
+                                    check("remove_zerodm", w, nbits, tol=1e-3)
+                                elif w.min() >= 0 and w.max() <= 255:
+                                    check("remove_zerodm", w, nbits, tol=1.0 + 1e-3)
+                                else:
+                                    check("remove_zerodm", np.clip(w, 0, 255), nbits, tol=256.0)      # size / depth only
+            del fil, zfil
+            for p in paths + zpaths:
                 os.remove(p)
     finally:
         shutil.rmtree(d, ignore_errors=True)
